@@ -359,7 +359,7 @@ const BOUNDS: &[(&str, &str, &str)] = &[
     ("mm", "powf", "rel:5e-2"),
     ("mm", "sin", "abs:2.2e-3"),
     ("mm", "cos", "abs:2.2e-3"),
-    ("mm", "tan", "mix:3.5e-2"),
+    ("mm", "tan", "mix:1.8e-2"),
     ("mm", "asin", "abs:3.6e-2"),
     ("mm", "acos", "abs:5.8e-2"),
     ("mm", "atan2", "abs:5.7e-3"),
